@@ -4,6 +4,7 @@ C17 — Eq is value equality and the ordering comparisons are coherent.
 import Ajson.Model.Cmp
 import Ajson.Proofs.HeapBasics
 import Ajson.Proofs.EqValue
+import Ajson.Proofs.CellsSteps
 import Ajson.Proofs.LazyParsed
 import Ajson.Proofs.Acyclic
 
@@ -152,6 +153,39 @@ theorem C17_eq_on_parsed_trees (data : Bytes) (v : Spec.STree) (hp : Spec.parseR
   rw [hu] at hu2; cases hu2
   refine ⟨H, hu, fun H' F a b ha hb va vb ea eb => ?_⟩
   exact Proofs.eq_value H' a b va vb (hs.of_same F.1) ((Proofs.CellsOK.of_empty he).fills hs F) ha hb ea eb
+
+/-- **… and after any history of edit requests and reads in any order** (`ReachedS`, Proofs/CellsSteps: the four scalar setters, DeleteKey,
+DeleteIndex, Delete, AppendArray and AppendObject of one node, Clone, SetArray, SetObject, SetNode — accepted or rejected, any receiver
+and arguments that exist at that moment, the copies made on the way included — interleaved with arbitrary reads): every edit keeps the container cells right (`Step.cells`: each step of a mutator leaves
+type, children and cell of a record alone, or empties the cell, or changes the children of a node whose cell it emptied before), every
+read does (`CellsAll.fills`), so `Eq` still answers the equality of the denoted values — whether a node was parsed or edited, read
+before or not -/
+theorem C17_eq_after_any_history (data : Bytes) (v : Spec.STree) (hp : Spec.parseRef data = .ok v) :
+    ∃ H, unmarshal data = .ok (H, 0) ∧ ∀ H' : Heap, Proofs.ReachedS H H' → ∀ (a b : Nat), a < H'.size → b < H'.size → ∀ va vb,
+      Proofs.absVal (H'.size + 1) H' a = some va → Proofs.absVal (H'.size + 1) H' b = some vb →
+      (H'.eq (some a) (some b)).2 = .ok (Proofs.jvalEq va vb) := by
+  obtain ⟨H, hu, he, _⟩ := Proofs.coherent_unmarshal data v hp
+  obtain ⟨H2, hu2, hs, hac⟩ := Proofs.acyc_unmarshal data v hp
+  rw [hu] at hu2; cases hu2
+  refine ⟨H, hu, fun H' R a b ha hb va vb ea eb => ?_⟩
+  obtain ⟨s', _, c'⟩ := Proofs.reachedS_sound R hs hac (Proofs.CellsAll.of_empty he)
+  exact Proofs.eq_value H' a b va vb s' c'.ok ha hb ea eb
+
+/-- the histories exist: on a one-node heap, Clone of the node, a read, then SetNode of the node with its copy -/
+example : let h0 := (({} : Heap).alloc { type := .array, children := some [] }).1
+    Proofs.ReachedS h0 (Proofs.Step.run ((Proofs.Step.run h0 (.clone 0)).getValue 0).1 (.setNode 0 1)) := by
+  intro h0
+  refine Proofs.ReachedS.step (.setNode 0 1) (Proofs.ReachedS.read (Proofs.ReachedS.step (.clone 0) (Proofs.ReachedS.refl h0) ?_) (Proofs.getValue_fills _ 0)) ?_
+  · decide
+  · decide
+
+/-- the same from any sound heap whose cells are right (several documents, constructed nodes, …) -/
+theorem C17_eq_after_any_history_from {h h' : Heap} (hs : Proofs.Struct h) (hac : Proofs.Acyc h) (c : Proofs.CellsAll h) (R : Proofs.ReachedS h h')
+    (a b : Nat) (ha : a < h'.size) (hb : b < h'.size) (va vb : JVal)
+    (ea : Proofs.absVal (h'.size + 1) h' a = some va) (eb : Proofs.absVal (h'.size + 1) h' b = some vb) :
+    (h'.eq (some a) (some b)).2 = .ok (Proofs.jvalEq va vb) := by
+  obtain ⟨s', _, c'⟩ := Proofs.reachedS_sound R hs hac c
+  exact Proofs.eq_value h' a b va vb s' c'.ok ha hb ea eb
 
 /-- the comparison is a read: it fills empty value cells only, and no node's value changes -/
 theorem C17_comparisons_are_reads (h : Heap) (a b : Option Id) (o : Ord4) :
